@@ -31,6 +31,8 @@ CHECKS = {
          "Requests produced by the reference codec over the protocol's option space and responses of every kind and error code (with tracing, warning and custom-payload flags, compressed or not) flow through the real proxy under fragmentation, several clients and scripted retries; the bytes every backend attempt receives and the bytes the client receives must equal what was sent except for header bytes 2-3, and no well-formed frame may cost the client its connection.", "§7 C03"),
  "C12": ("deterministic simulation: all subsets of consistency levels as the unsupported list x override level x generated QUERY/EXECUTE/BATCH over versions and compressions, with scripted retries; field-by-field oracle through the reference codec at the backend",
          "Each run draws an unsupported-consistency list (any of the 2^11 subsets, sometimes none) and an override level, prepares SELECT and non-SELECT statements through the proxy and sends generated requests (all option flags, header flags, versions, compression), some of them retried; every attempt a backend receives is decoded with the reference codec and must equal the client's request with only the consistency replaced when (non-SELECT and level in list), and be byte-identical otherwise.", "§7 C12"),
+ "C09": ("deterministic simulation: per-connection USE histories x qualifier x table spelling x statement kind as QUERY and PREPARE+EXECUTE; did-it-reach-a-backend oracle against an independent CQL name-resolution model",
+         "Connections with a history of USE statements (none, system in several spellings, user and quoted keyspaces) send tokenised statements sweeping keyspace qualifiers, table spellings (system tables, case/quote variants, look-alikes), selector lists and statement kinds, as QUERY and as PREPARE (+EXECUTE, with the v5 keyspace field); an independent resolution model (CQL identifier equality, qualifier before current keyspace) decides whether the proxy must answer itself, which must coincide with the token never/always reaching a fake backend; backends never see a client-originated read of system.local/peers and no client ever sees a backend's sentinel rows.", "§7 C09"),
 }
 
 NOT_APPLICABLE = {
